@@ -296,6 +296,13 @@ func (c *Client) Listen() error {
 
 				break
 			}
+			if n > len(buf) {
+				// a stream transport hands over whole frames and reports their size: one that does
+				// not fit (ChannelData with 65532 or more payload bytes) arrives cut and is dropped
+				c.log.Debugf("Read %d bytes, more than the %d byte buffer holds: dropped", n, len(buf))
+
+				continue
+			}
 
 			// A datagram that cannot be handled (malformed, a STUN request, non-STUN data from the
 			// STUN server) is dropped; it must not stop the client from reading what follows.
